@@ -66,7 +66,7 @@ func (vc *VC) scriptFor(o *Obligation) string {
 	}
 	b.WriteString("(assert " + o.PC + ")\n")
 	if !o.Cover {
-		b.WriteString("(assert (not " + o.Goal + "))\n")
+		b.WriteString("(assert (not " + sanitizePatterns(o.Goal) + "))\n")
 	}
 	b.WriteString("(check-sat)\n")
 	return b.String()
